@@ -1,5 +1,5 @@
 (* Properties/C13.v — vertices arriving before their parents are parked and later admitted. *)
-From Verif Require Import U64 Spice SpiceP RepoConstants Ledger ListFacts LedgerInv LedgerGraph Ancestors LedgerFunds LedgerReach TruncateP.
+From Verif Require Import U64 Spice SpiceP RepoConstants Ledger ListFacts LedgerInv LedgerGraph Ancestors LedgerFunds LedgerReach TruncateP LoadWitness.
 From Coq Require Import NArith.
 
 (* A vertex whose (left) parent is still unknown is reported as "parent missing" and parked exactly
@@ -43,3 +43,13 @@ Theorem C13_retry_respects_funds : forall me L v rep b L', reach me L -> add_lea
   forall h p, In h (decl v) -> find_node h (dag L) = Some p -> has_child L h = false -> covered L p.
 Proof. exact retry_confirms_only_covered. Qed.
 Print Assumptions C13_retry_respects_funds.
+
+(* "Any order gives exactly the ledger of parents-first delivery" is FALSE of the faithful model (KNOWN-FINDING
+   not-confluent:weight-window, reproduced on the real code on every run): admission depends on the node's weight /
+   throughput counters, which depend on the order in which INDEPENDENT vertices arrive.  Both orders below are
+   parents-first and every vertex is valid; in the first the light tip 12 is dropped and vertex 14 refused. *)
+Theorem C13_order_independence_refuted :
+  (let '(L, rs) := deliver o_G [o_A; o_B; o_C; o_D] in (rs, map nhash (dag L))) = ([ROk; ROk; ROk; RRejected], [13; 11; 10]%N) /\
+  (let '(L, rs) := deliver o_G [o_A; o_B; o_D; o_C] in (rs, map nhash (dag L))) = ([ROk; ROk; ROk; ROk], [13; 14; 12; 11; 10]%N).
+Proof. exact order_of_independent_vertices_matters. Qed.
+Print Assumptions C13_order_independence_refuted.
